@@ -433,5 +433,23 @@ def cumulativeWeightedMomentFromN (s : State α) (N : List α) (k : Nat) (w : Li
   cumsum (weightedTerms s N k w)
 def thirdMoment (s : State α) : α := momentFromN s s.psd 3
 
+/-! same-width re-meshes (round 6): the class width as the code would read it, and a VARIANT of the re-mesh that is
+NOT the code (kept for the witness theorem `skipRescale_changes_M3` and compared with the code on every run) -/
+
+/-- `PSDbounds[1] - PSDbounds[0]`: the class width (0 for a list without two boundaries) -/
+def firstWidth (b : List α) : α := match b with | b0 :: b1 :: _ => b1 - b0 | _ => 0
+
+/-- NOT the code: `changeSizeClasses(cMin, cMax, bins, resetPSD=False)` with an early return after the interpolation when
+the new class width equals the old one ("the correction is only needed when the resolution changes") — the rescaling
+to the old third moment is skipped for such grids; every other re-mesh is `change`. -/
+def changeSkipSameWidth (s : State α) (cMin cMax : α) (bins? : Option Nat) : Option (State α) :=
+  let s1 := retarget s cMin cMax bins?
+  if s.psd.length ≠ s.size.length ∨ s.psd.length + 1 ≠ s.bounds.length ∨ (s.psd.length = 0 ∧ s1.bins ≠ 0) then none
+  else
+    let s2 := reset s1 false
+    if firstWidth s2.bounds < firstWidth s.bounds ∨ firstWidth s.bounds < firstWidth s2.bounds then
+      change s cMin cMax bins? false
+    else some { s2 with psd := remeshRaw s.psd s.bounds s2.bounds }
+
 end generic
 end KawinV.Grid
